@@ -579,7 +579,10 @@ func (r *rewriter) run() bool {
 		astutil.AddNamedImport(r.pkg.Fset, r.file, "verifsim", simPath)
 	}
 	if changed {
-		// Imports that lost their last use would not compile: drop them.
+		// Imports that lost their last use would not compile: drop them
+		// (collect first: deleting shifts the slice we would be ranging over).
+		type dead struct{ name, path string }
+		var drop []dead
 		for _, imp := range r.file.Imports {
 			path, _ := strconv.Unquote(imp.Path.Value)
 			if path == simPath {
@@ -595,8 +598,11 @@ func (r *rewriter) run() bool {
 				name = pn
 			}
 			if !usesIdent(r.file, name) {
-				astutil.DeleteNamedImport(r.pkg.Fset, r.file, importName(imp), path)
+				drop = append(drop, dead{importName(imp), path})
 			}
+		}
+		for _, d := range drop {
+			astutil.DeleteNamedImport(r.pkg.Fset, r.file, d.name, d.path)
 		}
 	}
 	return changed
